@@ -279,11 +279,44 @@ def r5(ctx, rep):
             ok2 = show(e["a"][0]) == "range.end" and show(e["a"][1]) == "i64::min"
     rep.check(ok1, "compose:end", "end of the inner range must be rebased: a.start (default 1) + b.end - 1", file=g["file"], line=g["l"], fn=g["path"])
     rep.check(ok2, "compose:min", "the composed end must be the MIN of both ends (a later take cannot widen an earlier one)", file=g["file"], line=g["l"], fn=g["path"])
+    # by role: `Range { start: None, end: Some(0) }` is built under the condition end < start, where (start, end) are the two
+    # names bound from (current.start, current.end) in that order - `if let .. zip`, `match` on a pair, or nested ifs
+    import guards
+    par_ = guards.parents(g["body"])
     ok = False
     for n in walk(g["body"]):
-        if n.get("k") == "if" and show(n["c"]) == "(e < s)":
-            t = show_stmts(n["t"], maxdepth=8)
-            ok = "start: None" in t and "end: Some(0)" in t
+        if not (n.get("k") == "struct" and last_seg(n["p"]) == "Range"):
+            continue
+        d = {a: show(b) for a, b in n["f"]}
+        if d != {"start": "None", "end": "Some(0)"}:
+            continue
+        conds, binders = [], []
+        cur = n
+        while id(cur) in par_:
+            p_ = par_[id(cur)]
+            if p_.get("k") == "if" and (p_.get("t") is cur or guards._contains(p_.get("t"), cur)):
+                c = p_["c"]
+                if c.get("k") == "let":
+                    if "current.start" in show(c["e"], maxdepth=6) and "current.end" in show(c["e"], maxdepth=6) and show(c["e"], maxdepth=6).index("current.start") < show(c["e"], maxdepth=6).index("current.end"):
+                        binders = [x["n"] for x in walk(c["pat"]) if x.get("k") == "p_ident"]
+                else:
+                    conds.append(c)
+            if p_.get("k") == "match":
+                for arm in p_["arms"]:
+                    if arm is cur or arm.get("body") is cur or guards._contains(arm["body"], cur):
+                        sc = show(p_["e"], maxdepth=6)
+                        if "current.start" in sc and "current.end" in sc and sc.index("current.start") < sc.index("current.end"):
+                            binders = [x["n"] for x in walk(arm["pat"]) if x.get("k") == "p_ident"]
+                        if arm.get("guard") is not None:
+                            conds.append(arm["guard"])
+            cur = p_
+        if len(binders) == 2:
+            st_, en_ = binders
+            for c in conds:
+                while c.get("k") == "paren":
+                    c = c["e"]
+                if c.get("k") == "bin" and ((c["op"] == "<" and show(c["lhs"]) == en_ and show(c["rhs"]) == st_) or (c["op"] == ">" and show(c["lhs"]) == st_ and show(c["rhs"]) == en_)):
+                    ok = True
     rep.check(ok, "compose:empty", "an empty composition (end < start) must become `take 0` (LIMIT 0)", file=g["file"], line=g["l"], fn=g["path"])
 
 
